@@ -20,6 +20,7 @@ from .interp import Interp
 
 VERIF = os.path.dirname(os.path.dirname(os.path.abspath(__file__)))
 
+FIRST_RLIMIT = int(os.environ.get("PYVC_RLIMIT", "40000000"))
 QUICK_TIMEOUT_MS = int(os.environ.get("PYVC_TIMEOUT_MS", "20000"))
 THOROUGH_TIMEOUT_MS = 90000
 
@@ -32,10 +33,16 @@ def solve(pc, goal, timeout_ms):
         return "unsat", None, "trivial", 0.0
     first = min(timeout_ms, 3000)
     s = z3.Solver()
-    s.set("timeout", first)
+    # first stage bounded by z3's deterministic resource counter rather than by wall-clock time, so the
+    # verdict of an obligation does not depend on how busy the machine is (the wall cap is a safety net)
+    s.set("rlimit", FIRST_RLIMIT)
+    s.set("timeout", 300000)
     s.add(*pc)
     s.add(z3.Not(goal))
     r = s.check()
+    if os.environ.get("PYVC_RSTATS"):
+        st = s.statistics()
+        print("RSTAT", r, round(time.time() - t0, 3), [st.get_key_value(k) for k in st.keys() if k == "rlimit count"], file=sys.stderr)
     if r == z3.unsat:
         return "unsat", None, "z3", time.time() - t0
     if r == z3.sat:
